@@ -129,6 +129,16 @@ CHECKS = {
         "note": "Trusted: Python ast, E1 resolver, numpy stack / concatenate / unique semantics, parity arithmetic of the lattice offsets (done by the rule on integers).",
         "technique": "static analysis: abstract evaluation to canonical forms with set-of-children comparison; algebraic verification of the lattice identities by polynomial normal forms; override-chain rule",
     },
+    "C06": {
+        "text": "Decides, for every mask, sub-size map and source-plane coordinate set: the dense mapping matrix accumulates sub_fraction[data pixel]*weight[sub pixel, slot] into (data pixel, source pixel) over every sub-pixel and filled slot onto zeros; "
+                "the unique representation accumulates the SAME term (adding on a repeat source pixel) over exactly the sub_size[ip]^2 sub-pixels of data pixel ip located by a running offset that starts at 0 and advances by sub_size[ip]^2 once "
+                "per data pixel (so per-pixel sub-size maps are handled), with exact slot memory / distinct-pixel count / lengths - hence it encodes the same matrix; Delaunay weights are, for vertex k, the area of (point, the two OTHER vertices) "
+                "divided by the sum of exactly those three areas, applied iff a containing simplex exists (second slot != -1, source pixel 0 is a valid vertex) and the single nearest vertex gets weight 1 outside the hull; rectangular mappers "
+                "index the mesh with the mesh's own (shape_native, pixel_scales, origin), weight 1, size 1; dense and unique forms are wired to the same mapper tables; sub_fraction = 1/sub_size^2. Not decided: non-negativity / row sums as numbers, "
+                "scipy's find_simplex containment, neighbour-list symmetry.",
+        "note": "Trusted: Python ast, E1 resolver, numpy fancy indexing A[idx][k] = A[idx[k]], scipy.spatial.Delaunay.",
+        "technique": "static analysis: abstract evaluation of kernels to polynomial normal forms + canonical-form equality (sibling agreement between the dense and unique encodings); running-offset typestate; call-site wiring",
+    },
 }
 
 NOT_APPLICABLE = {f"C{n:02d}": PENDING for n in range(1, 21) if f"C{n:02d}" not in CHECKS}
